@@ -139,10 +139,10 @@ def amend(pid, text=None, note=None, technique=None):
 
 
 amend('C01', 'Coq theorems about the Gallina model of _Merger/merge (Props/C01.v): soundness of merge for ALL signatures — pure-positional and pure-keyword calls through the '
-      'n-ary fold and the nested form (C01_merge_sound_pos_kw), every non-colliding call for role-consistent pairs (C01_merge2_sound_mixed), both side conditions forced '
+      'n-ary fold and the nested form (C01_merge_sound_pos_kw), every non-colliding call for any number of role-consistent inputs (C01_merge_sound_mixed_n), both side conditions forced '
       '(refutations) — plus the small-model theorem for call shapes, decider correctness and the bounded sweeps as an independent cross-check; exhaustive U(2)^2 and random '
       'n-ary correspondence of the extracted model with /repo; soundness decided on the implementation outputs by the extracted, proved-complete decider.',
-      note='Mixed calls through the n-ary fold (n >= 3) are proved only on the bounded universe stated in the theorem (role consistency is not preserved by a merge step).',
+      note='',
       technique='Coq proof for all signatures (invariants through every merger stage) + reflective bounded theorems + extracted-model correspondence')
 amend('C03', 'Coq theorems about the Gallina model of _mask (Props/C03.v): exactness and raise condition for ALL valid signatures and all calls, with positional consumption '
       'and names (C03_positional_exact, C03_names_exact), composition as an equality of whole results, permutation invariance for all 16 hide-flag sets; exhaustive/random '
